@@ -1,12 +1,200 @@
-"""C18 -- HTTP/1.1 parsing is independent of segmentation: bounded stand-in (contracts/parts/C18_bounded.py); deductive contracts may be added later."""
-from contracts._parts import bounded, EXPLORATION_NOTE
+"""C18 -- HTTP/1.1 parsing is independent of segmentation.
 
-CONTRACTS = []
+The server parser is a stack of pieces, each of which has its own contract: LineReceiver cuts the stream into lines
+independently of segmentation (C16); the request line, the headers and the framing decision are functions of whole lines
+(C19); the chunked body decoder's states are proved in C22; bytes that arrive while a request is being handled are
+buffered and replayed in order (C21).  What this module adds, deductively, is the piece that was missing -- the
+Content-Length body:
+
+  IdentityData    _IdentityTransferDecoder.dataReceived for an arbitrary number of bytes still expected (or an unknown
+                  length) and an arbitrary delivery: exactly the bytes that belong to the body go to the data callback, once;
+                  the body ends exactly when the expected number is reached, the bytes after it are handed on unchanged, the
+                  decoder is closed *before* either callback runs; a delivery after the end is refused;
+  IdentitySplit   the same delivery made in one piece or cut at an arbitrary point gives the same body bytes in the same
+                  order and the same left-over (two decoders run side by side in one symbolic execution);
+  RawWhileBusy    HTTPChannel.rawDataReceived while a request is being handled appends the bytes to the replay buffer and
+                  touches nothing else (back-pressure aside).
+Bounded (contracts/parts/C18_bounded.py): the whole channel, every split against the one-piece run.
+"""
+import z3
+
+from pyvc.api import *
+from pyvc import core
+from contracts._parts import bounded
+from twisted.web import http
+
+M = "twisted.web.http"
+
+
+def ev(S, name):
+    return [e for e in S.trace if e.name == name]
+
+
+def snap_of(dec):
+    return {"data": dec._fields.get("dataCallback"), "finish": dec._fields.get("finishCallback"), "left": dec._fields.get("contentLength")}
+
+
+def cb(name, key):
+    def h(I, obj, data):
+        c = ctx()
+        dec = c.ghost[key]
+        c.emit(name, obj, (data,), None, snap_of(dec))
+    return h
+
+
+class IdentityData(Contract):
+    prop = "C18"
+    module = M
+    function = "_IdentityTransferDecoder.dataReceived"
+    differential = False
+    calls = {"body.__call__": cb("body", "dec"), "done.__call__": cb("done", "dec")}
+    inputs = dict(known=ForkBool(), left=Int(0, None), data=Bytes(alphabet=b"ab", small_len=3), open=ForkBool())
+    trusted = ["the two callbacks are recorded call-outs with a snapshot of the decoder at the moment of the call"]
+
+    def setup(self, i):
+        body, done = self.opaque("body"), self.opaque("done")
+        dec = self.make(http._IdentityTransferDecoder, contentLength=i.left if i.known else None,
+                        dataCallback=body if i.open else None, finishCallback=done if i.open else None)
+        return dict(self=dec, args=[i.data], objs=dict(d=dec), ghost=dict(dec=dec, body=body, done=done))
+
+    def bounded_inputs(self, tier):
+        return iter(())
+
+    raises = {RuntimeError: lambda S: not S.i.open}
+
+    def _step(S):
+        i, d = S.i, S.new.d
+        b, f = ev(S, "body"), ev(S, "done")
+        if S.exc is not None:
+            return len(S.trace) == 0
+        if not i.known:
+            return band(len(b) == 1, len(f) == 0, veq(b[0].args[0], i.data), d.contentLength is None, d.dataCallback is S.ghost["body"])
+        n = L(i.data)
+        truth = S.ghost["$interp"].truth
+        if truth(n < i.left):
+            return band(len(b) == 1, len(f) == 0, veq(b[0].args[0], i.data), veq(d.contentLength, i.left - n),
+                        d.dataCallback is S.ghost["body"], d.finishCallback is S.ghost["done"])
+        if len(b) != 1 or len(f) != 1 or S.trace.index(b[0]) > S.trace.index(f[0]):
+            return False
+        closed = all(e.snap["data"] is None and e.snap["finish"] is None and e.snap["left"] == 0 for e in (b[0], f[0]))
+        return band(veq(b[0].args[0], i.data[:i.left]), veq(f[0].args[0], i.data[i.left:]), closed, d.dataCallback is None,
+                    d.finishCallback is None, veq(d.contentLength, 0))
+
+    ensures = dict(body_bytes_once_end_exactly_at_the_declared_length_rest_handed_on=_step)
+    canaries = [("        elif len(data) < self.contentLength:", "        elif len(data) <= self.contentLength:", "body_bytes_once_end_exactly_at_the_declared_length_rest_handed_on"),
+                ("            finishCallback(data[contentLength:])", "            finishCallback(data[contentLength + 1:])", "body_bytes_once_end_exactly_at_the_declared_length_rest_handed_on")]
+
+
+def cb2(name):
+    def h(I, obj, data):
+        ctx().emit("%s:%s" % (name, obj._name[-1]), obj, (data,))
+    return h
+
+
+class IdentitySplit(Contract):
+    """one delivery, or the same bytes cut at an arbitrary point: same body, same left-over"""
+    prop = "C18"
+    module = M
+    function = "_IdentityTransferDecoder.dataReceived"
+    differential = False
+    calls = {"bodyA.__call__": cb2("body"), "doneA.__call__": cb2("done"), "bodyB.__call__": cb2("body"), "doneB.__call__": cb2("done")}
+    inputs = dict(left=Int(0, None), a=Bytes(alphabet=b"ab", small_len=2), b=Bytes(alphabet=b"ab", small_len=2))
+    trusted = IdentityData.trusted + ["after the body has ended the channel no longer feeds the decoder: the second piece is then what follows the "
+                                      "left-over (that the channel treats left-over + later bytes as one stream is LineReceiver's contract, C16)"]
+
+    def setup(self, i):
+        def dec(tag):
+            return self.make(http._IdentityTransferDecoder, contentLength=i.left, dataCallback=self.opaque("body" + tag),
+                             finishCallback=self.opaque("done" + tag))
+        A, B = dec("A"), dec("B")
+
+        def drive(call):
+            call(A, "dataReceived", i.a + i.b)
+            call(B, "dataReceived", i.a)
+            if B._fields["dataCallback"] is not None:
+                call(B, "dataReceived", i.b)
+                return "fed"
+            return "ended-in-first-piece"
+        return dict(drive=drive, objs=dict(A=A, B=B))
+
+    def bounded_inputs(self, tier):
+        return iter(())
+
+    raises = ()
+
+    def _same(S):
+        def joined(name):
+            out = b""
+            for e in ev(S, name):
+                out = out + e.args[0]
+            return out
+        body_ok = veq(joined("body:A"), joined("body:B"))
+        rest_a, rest_b = joined("done:A"), joined("done:B")
+        if S.result == "ended-in-first-piece":
+            rest_b = rest_b + S.i.b  # the second piece follows the left-over on the wire
+        return band(body_ok, veq(rest_a, rest_b), len(ev(S, "done:A")) == len(ev(S, "done:B")),
+                    veq(S.new.A.contentLength, S.new.B.contentLength))
+
+    ensures = dict(same_body_and_same_left_over_however_the_delivery_is_cut=_same)
+    canaries = [("            self.contentLength -= len(data)", "            self.contentLength -= len(data) + 1", "same_body_and_same_left_over_however_the_delivery_is_cut")]
+
+
+def _total(xs):
+    t = 0
+    for x in xs:
+        t = t + x
+    return t
+
+
+class RawWhileBusy(Contract):
+    prop = "C18"
+    module = M
+    function = "HTTPChannel.rawDataReceived"
+    differential = False
+    calls = {"producer.pauseProducing": lambda I, o: ctx().emit("pause", o, ()),
+             "map": lambda I, f, xs: [I.call(f, [x]) for x in xs], "sum": lambda I, xs: _total(xs)}
+    inputs = dict(data=Bytes(alphabet=b"ab", small_len=2), waiting=ForkBool(), n=OneOf(0, 1))
+    trusted = ["sum(map(len, buffer)) over the replay buffer is a number (only compared with the eager-read limit)"]
+
+    def setup(self, i):
+        buf = [b"earlier"][:i.n]
+        ch = self.make(http.HTTPChannel, _handlingRequest=True, _dataBuffer=buf, _waitingForTransport=bool(i.waiting),
+                       _networkProducer=self.opaque("producer"), _optimisticEagerReadSize=http.HTTPChannel._optimisticEagerReadSize,
+                       _transferDecoder=None)
+        return dict(self=ch, args=[i.data], objs=dict(ch=ch), ghost=dict(buf=buf, n=i.n))
+
+    def bounded_inputs(self, tier):
+        return iter(())
+
+    raises = ()
+
+    def _buffered(S):
+        buf = S.ghost["buf"]
+        return band(S.new.ch._dataBuffer is buf, len(buf) == S.ghost["n"] + 1, veq(buf[-1], S.i.data),
+                    all(e.name == "pause" for e in S.trace), len(S.trace) <= 1, S.new.ch._handlingRequest is True)
+
+    ensures = dict(appended_to_the_replay_buffer_nothing_else=_buffered)
+    canaries = [("            self._dataBuffer.append(data)", "            self._dataBuffer.insert(0, data)", "appended_to_the_replay_buffer_nothing_else")]
+
+
+CONTRACTS = [IdentityData, IdentitySplit, RawWhileBusy]
 BOUNDED = bounded("C18")
-NOTES = dict(explanation='the real HTTPChannel (bare and under Site) on a recording transport: every split run must equal the one-piece run and the reference for valid streams; pipelines, single-edit mutants, every short suffix in 8 parser states, streams at the real size limits, seeded random pipelines', not_covered=["deductive contracts on the anchored functions (not built)"])
+_SCOPE = ('the real HTTPChannel (bare and under Site) on a recording transport: every split run must equal the one-piece run and the reference for valid streams; pipelines, single-edit mutants, every short suffix in 8 parser states, streams at the real size limits, seeded random pipelines')
+NOTES = dict(explanation="the Content-Length body decoder proved per delivery and for an arbitrary cut; the other layers have their own contracts "
+                         "(C16 lines, C19 request line / headers / framing decision, C22 chunked states, C21 replay); the composed channel "
+                         "is bounded: " + _SCOPE,
+             not_covered=["the composition of the layers into HTTPChannel.dataReceived (explored for every split, not proved)",
+                          "header continuation lines, size limits across a cut (one recorded finding: the trailer limit)"])
 MANIFEST = dict(
-    category="exploration",
-    text="Bounded stand-in only, on the real code: " + 'the real HTTPChannel (bare and under Site) on a recording transport: every split run must equal the one-piece run and the reference for valid streams; pipelines, single-edit mutants, every short suffix in 8 parser states, streams at the real size limits, seeded random pipelines' + ".",
-    note=EXPLORATION_NOTE,
-    technique="bounded exhaustive evaluation of an executable contract on the real code (stand-in; not proved)",
+    category="proof",
+    text="_IdentityTransferDecoder.dataReceived -- the Content-Length body -- is proved for any number of bytes still "
+         "expected (or unknown length) and any delivery: exactly the body's bytes reach the data callback, once; the body ends "
+         "exactly at the declared length, the left-over is handed on unchanged, and the decoder is closed before either "
+         "callback runs; a later delivery is refused.  Two decoders run side by side prove that one delivery and the same "
+         "bytes cut at an arbitrary point give the same body and the same left-over.  HTTPChannel.rawDataReceived while a "
+         "request is handled only appends to the replay buffer.  Lines (C16), request line / headers / framing decision (C19), "
+         "chunked states (C22) and replay (C21) have their own contracts; that the composed channel is independent of "
+         "segmentation is exercised in the bounded tier only: " + _SCOPE + ".",
+    note="Trusted: pyvc, SMT solvers, callbacks as recorded call-outs.  Everything else: bounded, never counted as proved.",
+    technique="contract-based deductive verification (relational: two runs of the real function in one symbolic execution, SMT sequences) + bounded exhaustive splits of real request streams",
 )
